@@ -7,7 +7,7 @@ set -u
 patch="$1"; prop="$2"; tier="${3:-quick}"
 d=$(mktemp -d /tmp/gca-mut-XXXXXX)
 trap 'rm -rf "$d"' EXIT
-rsync -a --exclude .git /repo/ "$d/"
+git -C /repo archive HEAD | tar -x -C "$d"
 if ! (cd "$d" && patch -p1 -s --no-backup-if-mismatch < "$patch"); then
   echo "PATCH-FAILED $patch"; exit 3
 fi
